@@ -94,6 +94,22 @@ func plan(tier string, seed int64) []driver.Case {
 		for _, t := range tuples(e.NSrc, mv) {
 			cases = append(cases, driver.Case{ID: fmt.Sprintf("seq/%s/%s", e.Name, key(t)), P: map[string]string{"kind": "seq", "entry": e.Name, "scripts": key(t)}})
 		}
+		// three and more sources: beyond one value per source the tuple space is sampled (seeded), and
+		// so are the arrival orders: which source is the shortest, which completes with values queued…
+		if e.NSrc >= 3 {
+			nDeep := 60
+			if tier == "thorough" {
+				nDeep = 600
+			}
+			for i := 0; i < nDeep; i++ {
+				var t []src.Script
+				for s := 0; s < e.NSrc; s++ {
+					sc := scriptsFor(s, 3)
+					t = append(t, sc[rng.Intn(len(sc))])
+				}
+				cases = append(cases, driver.Case{ID: fmt.Sprintf("seq-deep/%s/%d", e.Name, i), P: map[string]string{"kind": "seq", "entry": e.Name, "scripts": key(t), "sample": "12", "seed": fmt.Sprint(rng.Int63())}})
+			}
+		}
 		if e.Flags.Has(catalog.Blocks) {
 			continue
 		}
@@ -163,6 +179,39 @@ func interleavings(e *catalog.Entry, scripts []src.Script, limit int, head int) 
 		st0.On(head, headNotif(head))
 	}
 	dfs(st0, nil)
+	return out
+}
+
+// sampledInterleavings draws k arrival orders at random (at each step one of the sources the model
+// still listens to), instead of the first k of the enumeration, which all share their beginning.
+func sampledInterleavings(e *catalog.Entry, scripts []src.Script, k int, rng *rand.Rand) [][]event {
+	var out [][]event
+	seen := map[string]bool{}
+	for try := 0; try < 4*k && len(out) < k; try++ {
+		st := e.Step(len(scripts))
+		pos := make([]int, len(scripts))
+		var path []event
+		for {
+			var enabled []int
+			for i := range scripts {
+				if pos[i] < len(scripts[i]) && !st.Done() && st.Live(i) {
+					enabled = append(enabled, i)
+				}
+			}
+			if len(enabled) == 0 {
+				break
+			}
+			i := enabled[rng.Intn(len(enabled))]
+			n := scripts[i][pos[i]]
+			st.On(i, n)
+			pos[i]++
+			path = append(path, event{i, n})
+		}
+		if key := fmt.Sprint(path); !seen[key] {
+			seen[key] = true
+			out = append(out, path)
+		}
+	}
 	return out
 }
 
@@ -240,7 +289,14 @@ func runSeq(c driver.Case) driver.Result {
 	if c.Get("head") != "" {
 		head = c.Int("head")
 	}
-	paths := interleavings(e, scripts, 4000, head)
+	var paths [][]event
+	if k := c.Int("sample"); k > 0 {
+		var sd int64
+		fmt.Sscan(c.Get("seed"), &sd)
+		paths = sampledInterleavings(e, scripts, k, rand.New(rand.NewSource(sd)))
+	} else {
+		paths = interleavings(e, scripts, 4000, head)
+	}
 	var orders int64
 	sigs := map[string]bool{}
 	for _, path := range paths {
